@@ -69,16 +69,40 @@ class Scenario:
                 self.log.add("func_end", e=x)
                 return x
             node = s.map_async(fn, parallelism=cfg["parallelism"])
-        elif k == "direct":
+        elif k in ("direct", "tree"):
             node = s
         elif k == "map":
             node = s.map(lambda x: x)
         elif k == "slice":
             node = s.slice(0, None, 1)
+        elif k == "union1":
+            node = s.union()
+        elif k == "pluckmap":
+            node = s.map(lambda x: (x, x)).pluck(0)
+        elif k == "flatmap":
+            node = s.map(lambda x: (x,)).flatten()
+        elif k == "filter":
+            node = s.filter(lambda x: True)
+        elif k == "starmap":
+            node = s.map(lambda x: (x,)).starmap(lambda x: x)
+        elif k == "accumulate":
+            node = s.accumulate(lambda acc, x: x)
+        elif k == "unique":
+            node = s.unique()
         else:
             raise ValueError(k)
         self.node = node
-        self.probes = [aprobe.Probe(node, self.log, mode=m, pid=i + 1) for i, m in enumerate(cfg.get("cons", ["future"]))]
+        if k == "tree":
+            # P1 on the source, then a map branch carrying P2, then P3 on the source: attachment order P1, (map->P2), P3
+            modes = cfg["cons"]
+            self.node = node = s
+            self.probes = [aprobe.Probe(s, self.log, mode=modes[0], pid=1)]
+            m = s.map(lambda x: x)
+            self.probes.append(aprobe.Probe(m, self.log, mode=modes[1], pid=2))
+            if len(modes) > 2:
+                self.probes.append(aprobe.Probe(s, self.log, mode=modes[2], pid=3))
+        else:
+            self.probes = [aprobe.Probe(node, self.log, mode=m, pid=i + 1) for i, m in enumerate(cfg.get("cons", ["future"]))]
         self.next_elem = 0
         self.tags = {}
         self.per_src = [0] * self.nsrc
@@ -234,7 +258,7 @@ def alphabet(cfg):
     al = ["e%d" % (i + 1) for i in range(cfg.get("nsrc", 1))] + ["s"]
     if any(m != "sync" for m in cfg.get("cons", ["future"])):
         al += ["d"]
-        if k in ("map_async", "rate_limit", "zip", "union", "direct", "partition") or len(cfg.get("cons", [])) > 1:
+        if k in ("map_async", "rate_limit", "zip", "union", "direct", "tree", "partition") or len(cfg.get("cons", [])) > 1:
             al += ["D"]
     if k in ("delay", "rate_limit", "timed_window", "timed_window_unique") or (k == "partition" and cfg.get("timeout")):
         al += ["a", "w"]
